@@ -47,6 +47,7 @@ EXPECTED_PROBES = [
     "query_beyond_last_name",
     "pinned_reader_rechecked_after_2_commits",
     "outer_cut_removed_inner_promoted",
+    "initial_load_origin_from_text",
 ]
 
 NAMES = ["@", "a", "sub", "ns.sub", "deep.ns.sub", "x.sub", "sub2.sub", "a.sub2.sub", "zz", "leaf.ent", "*.w", "sub3", "g.sub3", "b.a"]
@@ -101,7 +102,7 @@ def gen_case(seed, tier):
                     "repl": rng.random() < 0.08,
                 }
             )
-    cfg = {"relativize": rng.random() < 0.5, "load_replacement": rng.random() < 0.7, "nested": nested_ok}
+    cfg = {"relativize": rng.random() < 0.5, "load_replacement": rng.random() < 0.7, "nested": nested_ok, "load_text_no_origin": rng.random() < 0.15}
     return {"prop": PROP, "seed": seed, "cfg": cfg, "base": base, "steps": steps}
 
 
@@ -151,12 +152,19 @@ class _World:
         self.res = res
         self.log = log
         cfg = case["cfg"]
-        self.b = Z.Bench("btree", cfg["relativize"])
-        self.zone = self.b.zone
         self.readers = []  # (txn, model snapshot dict, commits_at_open)
         self.commits = 0
         self.nontrivial = False
-        self.model = Z.load_bench(self.b, case["base"], replacement=cfg.get("load_replacement", True))
+        text_ok = all(op["o"] == "add" and op["n"] not in ("OUT", "LONG") and op.get("cls", "IN") == "IN" and op["t"] != "CNAME" for op in case["base"])  # (the master-file reader refuses CNAME-and-other-data instead of displacing)
+        if cfg.get("load_text_no_origin") and text_ok:
+            # the origin is not given to the constructor: it comes from $ORIGIN in the text
+            self.b, self.model = Z.load_bench_from_text("btree", cfg["relativize"], case["base"])
+            self.zone = self.b.zone
+            res.probes.inc("initial_load_origin_from_text")
+        else:
+            self.b = Z.Bench("btree", cfg["relativize"])
+            self.zone = self.b.zone
+            self.model = Z.load_bench(self.b, case["base"], replacement=cfg.get("load_replacement", True))
         self.note_shape(None, self.model)
         self.check_version(self.zone._versions[-1], self.model, "after initial load")
 
@@ -417,7 +425,7 @@ def shrink(case):
                 c["base"][j][key] = simple
                 yield c
     cfg = case["cfg"]
-    for key, simple in (("relativize", True), ("load_replacement", True)):
+    for key, simple in (("relativize", True), ("load_replacement", True), ("load_text_no_origin", False)):
         if cfg[key] != simple:
             c = copy.deepcopy(case)
             c["cfg"][key] = simple
